@@ -27,6 +27,7 @@ type World struct {
 	Prop      string // property under check: postconditions tagged for other properties only are skipped
 
 	AllocBudget func(e *Exec, st *State) *Term
+	pruneFailed int // second attempts (with feasibility checks) that ended in a path explosion as well
 	FrameCheck  func(e *Exec, st *State, p *PtrVal)
 	mapHook     func(e *Exec, st *State, fr *Frame, in *ssa.MapUpdate, m *MapVal, k, v Val) bool
 	lookupHook  func(e *Exec, st *State, fr *Frame, in *ssa.Lookup, m *MapVal, k Val) (Val, *Term, bool)
